@@ -170,7 +170,11 @@ def check_op(sc, obs, opi, add):
             add('C11', 'exit_results_account_for_every_task', {'sum': sum(x[2] for x in got.elements()), 'tasks': m})
 
     # ---- C16 ----
-    if sc['pool'].get('order_tasks') and chunks is not None and full and not numpy_in:
+    order_eff = bool(sc['pool'].get('order_tasks'))
+    for prev in sc['ops'][:opi]:
+        if prev.get('op') == 'set' and prev.get('what') == 'order_tasks':
+            order_eff = bool(prev.get('value'))
+    if order_eff and chunks is not None and full and not numpy_in:
         where = {}
         for ci, ch in enumerate(chunks):
             for i in ch:
